@@ -519,6 +519,30 @@ def key_parts(e3, thorough):
                 bad.append(l.taken())
                 continue
             bad.append(z3.And(l.taken(), z3.Not(z3.And(*ok))))
+        ovr = []
+        if nl >= 1 and ng >= 1:
+            # a key label whose (raw) name equals a global label's name overrides it: one label for that name, carrying the key's value
+            kname, kval = labels[0].data[0].data[0], labels[0].data[1].data[0]
+            gname, gval = glob[0][0].data[0], glob[0][1].data[0]
+            plain = lambda c: z3.Or(z3.And(z3.UGE(c, bv(ord("a"), 32)), z3.ULE(c, bv(ord("z"), 32))))
+            pre = z3.And(kname == gname, plain(kname), plain(kval), plain(gval), kval != gval)
+            if nl == 2:
+                pre = z3.And(pre, labels[1].data[0].data[0] != kname)
+            for l in done:
+                try:
+                    labs = l.ret.f[1].data
+                except (AttributeError, KeyError):
+                    continue
+                hits = []
+                for lb in labs:
+                    it = lb.data
+                    if len(it) == 5 and not any(isinstance(x, tuple) for x in it):
+                        hits.append((it[0] == kname, it[3]))
+                    else:
+                        hits.append((z3.BoolVal(False), bv(0, 32)))
+                n_named = z3.Sum(*[z3.If(h, 1, 0) for h, v in hits] + [z3.IntVal(0), z3.IntVal(0)])
+                val_ok = z3.And(*[z3.Implies(h, v == kval) for h, v in hits]) if hits else z3.BoolVal(True)
+                ovr.append(z3.And(l.taken(), pre, z3.Not(z3.And(n_named == 1, val_ok))))
         cname = f"c08_key_to_parts_n{nn}_l{nl}_g{ng}"
         bounds = (f"key_to_parts: metric name of {nn} character(s), {nl} key label(s) and {ng} global label(s) with keys and values of 1 character each, "
                   f"every character any Unicode scalar value (so keys may coincide, before or after sanitisation); {len(done)} paths")
@@ -540,6 +564,9 @@ def key_parts(e3, thorough):
                  dict(name=f"{cname}:returns", desc="panics or does not return", bounds=bounds, cons=base + [other], expect_unsat=True, on_model=on_model),
                  dict(name=f"{cname}:name_and_labels_well_formed", desc="the sanitized name or a rendered label `key=\"value\"` is not well-formed (bad label name, raw quote/newline or stray backslash in the value)",
                       bounds=bounds, cons=base + [z3.Or(*bad) if bad else z3.BoolVal(False)], expect_unsat=True, on_model=on_model)]
+        if ovr:
+            specs.append(dict(name=f"{cname}:key_label_overrides_global_label", desc="a key label with the same name as a global label does not replace it (the name appears twice, or with the global value)",
+                              bounds=bounds + "; the shared name and both values plain lower-case letters", cons=base + [z3.Or(*ovr)], expect_unsat=True, on_model=on_model))
         check.discharge_many(e3.res, specs, 120)
 
 
